@@ -62,7 +62,11 @@ pub fn run(line: &str) -> Obs {
             let verdict = if h == w { Err(format!("square {h}x{w} input rejected")) } else { Ok(()) };
             Obs::with("err nonsquare".into(), verdict)
         }
-        Some(Err(e)) => Obs::with(format!("err other {e:?}"), Err(format!("unexpected error kind {e:?}"))),
+        // "non-square input is rejected": the statement names no error kind, so any `Err` is a rejection
+        Some(Err(e)) => {
+            let verdict = if h == w { Err(format!("square {h}x{w} input rejected: {e:?}")) } else { Ok(()) };
+            Obs::with(format!("err other {e:?}"), verdict)
+        }
     }
 }
 
